@@ -57,6 +57,12 @@ def channel_rule(ctx, repo):
                     for x, v in (zip(t.elts, n.value.elts) if isinstance(t, ast.Tuple) and isinstance(n.value, ast.Tuple) and len(t.elts) == len(n.value.elts) else [(t, n.value)]):
                         if isinstance(x, ast.Name):
                             local.setdefault(x.id, []).append(v)
+            elif isinstance(n, ast.Call) and isinstance(n.func, ast.Attribute) and n.func.attr in ('append', 'extend', 'insert') and isinstance(n.func.value, ast.Name) and n.args:
+                local.setdefault(n.func.value.id, []).append(n.args[-1])          # an accumulator filled element by element
+            elif isinstance(n, ast.AugAssign) and isinstance(n.target, ast.Name):
+                local.setdefault(n.target.id, []).append(n.value)
+            elif isinstance(n, ast.For) and isinstance(n.target, ast.Name) and not (isinstance(n.iter, ast.Attribute) and n.iter.attr == 'instructions'):
+                local.setdefault(n.target.id, []).append(n.iter)          # the loop variable carries the paragraphs it iterates (not: the instruction objects)
         def reads(e, depth=0):
             # annotation text reaching the expression; counts, flags (`int(any(...))`) and row spans carry no text
             out = set()
